@@ -28,6 +28,7 @@ From FT Require Import Base.Dict Model.Edit Model.EditExec Proofs.EditInv Proofs
   Proofs.EditGlobal Proofs.EditLin Proofs.EditLinExample.
 From FT Require Proofs.EditNodeBasic Proofs.EditBook Proofs.EditUDN Proofs.EditUAN Proofs.EditWFEdge.
 From FT Require Gen.History_gen Proofs.HistoryGen Props.C02.
+From FT Require Proofs.EditBook Proofs.EditWFNode.
 Import ListNotations.
 Open Scope Z_scope.
 
@@ -184,6 +185,18 @@ Theorem C05_history_is_generated : forall st a dA,
    end).
 Proof. exact FT.Props.C02.C02_edit_machine_uses_generated. Qed.
 
+(* ---- the same with the node calls: every state reachable from a well-formed state by any sequence, of
+        any length, of UserAddNode / UserDeleteNode / edge-level calls (accepted or refused) satisfies the
+        complete invariant WF, provided each UserAddNode respects its documented preconditions at the moment
+        it is made (op_pre: integer time / track id, no caller-supplied lineage id, and - with a
+        segmentation - a non-zero id and pixels of the node's own frame that are background; the three
+        accepted-but-invariant-breaking calls of Proofs/EditWFNodeExample.v show each part is needed) ---- *)
+Theorem C05_run_node_calls : forall ops st,
+  forallb EditWFNode.node_fragment ops = true -> WF st -> EditBook.rp_disjoint st ->
+  (forall pre o post, ops = pre ++ o :: post -> EditWFNode.op_pre (run st pre) o) ->
+  WF (run st ops).
+Proof. exact EditWFNode.run_node_WF. Qed.
+
 Example C05_example_invariants : LWF ex5.
 Proof. exact ex5_LWF. Qed.
 
@@ -221,3 +234,4 @@ Print Assumptions C05_frame_delete_node.
 Print Assumptions C05_step_add_node.
 Print Assumptions C05_run_edge_calls.
 Print Assumptions C05_history_is_generated.
+Print Assumptions C05_run_node_calls.
